@@ -23,7 +23,9 @@
 //!   `big N`   -> `ok <#primes> <checked cells>` or `mismatch <what> <index> impl=<..> ref=<..>`: Sieve::new(N)
 //!                compared element by element with an independent odd-only segmented sieve of
 //!                Eratosthenes written here, and factorize(m) checked for every m <= N
-//!                (implementation-only search, never counted as proof)
+//!                (implementation-only search, never counted as proof).  The reference table is computed once per
+//!                process for the largest limit asked so far (its cells do not depend on the limit) and reused.
+//!                `<#primes>` is pi(N) of the reference: the plugin compares it with published values of pi.
 //!   `sweep LO HI` -> `big` without the all-m factorisation for EVERY limit N = HI, HI-1, ..., LO in this process
 //!                (descending: a smaller limit always follows a larger one); factorize(m) for the top 9 m of every N.
 //!                `ok <#limits> <checked cells>` or `mismatch N=<limit> ...`
@@ -31,6 +33,7 @@
 use rlib_sieve::Sieve;
 use std::fmt::Write;
 use std::sync::atomic::{AtomicU64, Ordering};
+use std::sync::{Arc, Mutex};
 
 const CAP: usize = 64; // more prime powers than any i32 has
 
@@ -683,26 +686,46 @@ fn ref_primes(lpf: &[u32]) -> Vec<u32> {
     (2..lpf.len()).filter(|&m| lpf[m] as usize == m).map(|m| m as u32).collect()
 }
 
-fn big(n: usize) -> String {
-    let s = Sieve::new(n);
+/// (least prime factors, primes) of the reference for indices 0..=m, m >= n: one table per process, recomputed only
+/// when a larger limit arrives (the plugin sends the largest limit first).  Nothing of the implementation runs while
+/// the lock is held.
+static REFERENCE: Mutex<Option<Arc<(Vec<u32>, Vec<u32>)>>> = Mutex::new(None);
+
+fn reference(n: usize) -> Arc<(Vec<u32>, Vec<u32>)> {
+    let mut g = REFERENCE.lock().unwrap_or_else(|e| e.into_inner());
+    if let Some(r) = g.as_ref() {
+        if r.0.len() > n {
+            return r.clone();
+        }
+    }
+    *g = None; // free the smaller table first
     let lpf = reference_lpf(n);
     let rp = ref_primes(&lpf);
-    match compare(&s, n, &lpf, &rp, 1) {
+    let r = Arc::new((lpf, rp));
+    *g = Some(r.clone());
+    r
+}
+
+fn big(n: usize) -> String {
+    let s = Sieve::new(n);
+    let r = reference(n);
+    let (lpf, rp) = (&r.0, &r.1);
+    match compare(&s, n, lpf, rp, 1) {
         Ok((np, checked)) => format!("ok {} {}", np, checked),
         Err(e) => format!("mismatch {}", e),
     }
 }
 
 fn sweep(lo: usize, hi: usize) -> String {
-    let lpf = reference_lpf(hi);
-    let rp = ref_primes(&lpf);
+    let r = reference(hi);
+    let (lpf, rp) = (&r.0, &r.1);
     let (mut limits, mut checked) = (0usize, 0usize);
     for n in (lo..=hi).rev() {
         let s = match vh::guarded(|| Sieve::new(n)) {
             Some(s) => s,
             None => return format!("mismatch N={} Sieve::new panicked", n),
         };
-        match vh::guarded(|| compare(&s, n, &lpf, &rp, n.saturating_sub(8))) {
+        match vh::guarded(|| compare(&s, n, lpf, rp, n.saturating_sub(8))) {
             Some(Ok((_, c))) => checked += c,
             Some(Err(e)) => return format!("mismatch N={} {}", n, e),
             None => return format!("mismatch N={} an accessor panicked", n),
